@@ -82,7 +82,7 @@ func main() {
 	cfg := drv.Parse()
 	r := drv.NewRand(cfg.Seed)
 	wr := emit.NewWriter(cfg.Out, "C08_spec", 0, cfg.Only)
-	n := cfg.Count(320, 6000)
+	n := cfg.Count(600, 6000)
 	for i := 0; i < n; i++ {
 		w := history(r, i)
 		wr.Add(emit.Case{Input: w.Input(), Observed: w.Observed(), Tags: w.TagList(), Human: w.Log})
